@@ -194,7 +194,7 @@ impl<R: Rng, M: QmcManager> Qmc<R, M> {
                 &mut rng,
             );
         }
-        self.cutoff = max(self.cutoff, m.get_n() + m.get_n() / 2);
+        self.cutoff = max(self.cutoff, m.get_n() + m.get_n() / 2 + 1);
 
         self.state = Some(state);
         self.rng = Some(rng);
